@@ -109,6 +109,29 @@ def c05_degrees(ki: int, n: int, d: int) -> bool:
     return _check_degrees(s, d)
 
 
+ALLCLS = sorted(RS.PATTERNS)
+
+
+def c05_equality(ci: int, cj: int, ti: int, n: int) -> bool:
+    """== / != / len follow the note lists, across classes (e.g. melodic minor vs Bachian share the ascent only)"""
+    a = pick(ALLCLS, ci)
+    b = pick(ALLCLS, cj)
+    n = enum(n, 1, 3)
+    ka = pick(["C", "A", "Eb"], ti)
+    def mk(cls, octs):
+        if cls == "Chromatic":
+            return scales.Chromatic(ka, octs)
+        return getattr(scales, cls)(ka, octs)
+    x = mk(a, n)
+    y = mk(b, n)
+    same = x.ascending() == y.ascending() and x.descending() == y.descending()
+    if (x == y) != same or (x != y) == same:
+        return False
+    z = mk(b, 3 - n)
+    same2 = x.ascending() == z.ascending() and x.descending() == z.descending()
+    return (x == z) == same2 and len(x) == len(x.ascending()) and len(z) == len(z.ascending())
+
+
 def c05_bad_direction(x: str) -> bool:
     s = scales.Major("C")
     if x == "a" or x == "d":
@@ -169,6 +192,8 @@ def claims(tier):
     for cls in sorted(RS.PATTERNS):
         nk = len(_tonics(cls)) if not q else min(3, len(_tonics(cls)))
         cl.append(Claim("degrees[%s]" % cls, c05_degrees, params={"cls": cls, "nk": nk}, pre=[lambda ki, n, d: 0 <= ki < P["nk"] and 1 <= n <= 2 and -2 <= d], timeout=600 if q else 2400, bounds="%d tonics (realised) x octaves 1..2; degree d symbolic in -2..scale length; both directions" % nk))
+    for ci in range(len(ALLCLS)):
+        cl.append(Claim("equality[%s]" % ALLCLS[ci], c05_equality, params={"ci": ci}, group="c05_equality", pre=[lambda ci, cj, ti, n: ci == P["ci"] and 0 <= cj < len(ALLCLS) and 0 <= ti < (1 if q else 3) and 1 <= n <= 2], timeout=900 if q else 3000, bounds="== and != between %s and each of the 17 classes on %d common tonic(s), octave counts 1..2 and unequal counts" % (ALLCLS[ci], 1 if q else 3)))
     cl.append(Claim("bad_direction", c05_bad_direction, pre=[lambda x: len(x) <= 2], timeout=120, bounds="direction: every unicode string, len <= 2"))
     cl.append(Claim("lowercase_tonic", c05_lowercase_tonic, pre=[lambda ki: 0 <= ki < len(RS.ANY_TONIC)], timeout=120, bounds="lower-case tonic rejected, 9 classes"))
     pool = list(range(len(INPUTS)))
